@@ -131,7 +131,7 @@ fn rt_item(r: &mut Rng, depth: u32, names: &[String], floats: bool) -> Item {
                 let n = r.pick(names);
                 Item::name(if r.chance(1, 2) { n.to_lowercase() } else { let mut c = n.to_lowercase(); c.replace_range(0..1, &n[0..1]); c })
             } else {
-                Item::name(r.pick(&["a", "foo", "x1", "ü", "k]", "a.b", "x(y", "1x", "e5", "--", "T", "true"]).to_string())
+                Item::name(r.pick(&["a", "foo", "x1", "ü", "k]", "a.b", "x(y", "1x", "e5", "--", "T", "true", "x[", "cell[0]", "[", "INTX[1]", "a[b]c", "IN[T", "BOOL", "[]"]).to_string())
             }
         }
         _ => Item::float(gen_float(r)),
@@ -193,4 +193,99 @@ pub fn replay_parse(xs: &[Sx]) -> Option<String> {
 }
 pub fn replay_rt(xs: &[Sx]) -> Option<String> {
     Some(observe_rt(&dec_item(xs.get(0)?)?))
+}
+
+/// C11, the per-leaf hypothesis FloatPrintStable: print (parse (print x)) = print x for f32 bit patterns, with the
+/// std functions pushr itself calls (`format!("{:.3}")`, `str::parse::<i32>` first, then `str::parse::<f32>`).
+/// quick: every 1024th pattern (2^22 of them) + a window around every power of two; thorough: all 2^32 patterns on all
+/// cores. One pattern in 4096 of those visited additionally goes through pushr's own printer and parser.
+pub fn run_fsweep(tier: &str, out: &mut dyn FnMut(String)) {
+    use pushr::push::instructions::InstructionSet;
+    let stride: u64 = if tier == "thorough" { 1 } else { 1024 };
+    let nthreads: u64 = 16;
+    let total: u64 = 1u64 << 32;
+    let chunk = total / nthreads;
+    let check_std = |b: u32| -> bool {
+        let x = f32::from_bits(b);
+        let t1 = format!("{:.3}", x);
+        if t1.parse::<i32>().is_ok() {
+            return false; // a printed float must not read back as an integer
+        }
+        match t1.parse::<f32>() {
+            Ok(y) => format!("{:.3}", y) == t1,
+            Err(_) => false,
+        }
+    };
+    let results: Vec<(u64, u64, Option<u32>)> = std::thread::scope(|sc| {
+        let hs: Vec<_> = (0..nthreads)
+            .map(|t| {
+                sc.spawn(move || {
+                    let mut iset = InstructionSet::new();
+                    iset.load();
+                    let (mut n, mut bad, mut first) = (0u64, 0u64, None);
+                    let mut b = t * chunk;
+                    let end = (t + 1) * chunk;
+                    while b < end {
+                        let bits = b as u32;
+                        n += 1;
+                        let mut ok = check_std(bits);
+                        if ok && (b / stride) % 4096 == 0 {
+                            // the implementation's own path
+                            let it = Item::float(f32::from_bits(bits));
+                            let t1 = it.to_string();
+                            let mut st = PushState::new();
+                            PushParser::parse_program(&mut st, &iset, &t1);
+                            ok = st.exec_stack.size() == 1 && st.exec_stack.get(0).map(|i| i.to_string()) == Some(t1);
+                        }
+                        if !ok {
+                            bad += 1;
+                            if first.is_none() {
+                                first = Some(bits);
+                            }
+                        }
+                        b += stride;
+                    }
+                    (n, bad, first)
+                })
+            })
+            .collect();
+        hs.into_iter().map(|h| h.join().unwrap_or((0, 1, Some(0)))).collect()
+    });
+    let (mut n, mut bad, mut first) = (0u64, 0u64, None);
+    for (a, b, f) in results {
+        n += a;
+        bad += b;
+        if first.is_none() {
+            first = f;
+        }
+    }
+    // windows around the powers of two and of ten, where the printed precision and the float spacing cross
+    let mut extra: Vec<u32> = vec![];
+    for e in 0..=254u32 {
+        for d in -40i64..=40 {
+            let b = ((e << 23) as i64 + d).clamp(0, 0x7f7f_ffff) as u32;
+            extra.push(b);
+            extra.push(b | 0x8000_0000);
+        }
+    }
+    let mut p = 1e-6f64;
+    while p < 1e39 {
+        let c = (p as f32).to_bits();
+        for d in -40i64..=40 {
+            let b = (c as i64 + d).clamp(0, 0x7f7f_ffff) as u32;
+            extra.push(b);
+            extra.push(b | 0x8000_0000);
+        }
+        p *= 10.0;
+    }
+    for b in extra {
+        n += 1;
+        if !check_std(b) {
+            bad += 1;
+            if first.is_none() {
+                first = Some(b);
+            }
+        }
+    }
+    out(format!("( fsweep {} {} {} )", n, bad, first.map(|b| format!("{:08x}", b)).unwrap_or_else(|| "-".to_string())));
 }
